@@ -130,7 +130,7 @@ void dru_vv(const T *p, int, pbt::Ctx &)
     const T a = p[i], b = p[4 + i];
     if constexpr (std::is_integral<T>::value) {
       T e = T((a + b - 1) / b);
-      chk_exact(&e, &act[i], 1, "divRoundUp");
+      chk_exact(&e, &act[i], 1, "divRoundUp", i);
     } else {
       // (a+b) and (..-1) each round once (<= eps/2 relative to the partial result, which is <= |a|+|b|+1),
       // the quotient rounds once more: total <= 2 eps (|a|+|b|+1)/|b|; 8 eps is used.
